@@ -448,6 +448,24 @@ pub fn run(cli: &Cli) {
         for ty in TYPES { dispatch(&mut ctx, &mut rep, ty, &b, "random"); }
         if ctx.ops.len() > 30_000 { flush(&mut ctx, &mut rep); }
     }
+    // nesting depth: custom fields nest (a field is a SecretRow whose secret has user data with fields ...); the decoder
+    // recurses once per level.  Decoded in a child process because a stack overflow aborts the process.
+    for depth in [50usize, 3000] {
+        let exe = std::env::current_exe().unwrap();
+        let out = std::process::Command::new(exe).args(["nest", "--seed", "1", "--tier", "quick", "--out", "/dev/null", "--depth", &depth.to_string()]).output();
+        rep.case(&format!("nest:{depth}"), true);
+        match out {
+            Ok(o) => {
+                let so = String::from_utf8_lossy(&o.stdout).to_string();
+                let verdict = if so.contains("decoded ok") { "ok" } else if so.contains("error:") { "error" } else { "aborted" };
+                rep.count(&format!("nest:{depth}:{verdict}"));
+                if verdict == "aborted" {
+                    rep.spec_fail("decode-aborts-process:Secret:nested-custom-fields", json!({"depth": depth, "bytes": depth * 69, "status": format!("{:?}", o.status), "stderr": String::from_utf8_lossy(&o.stderr).chars().take(200).collect::<String>()}), "decoding a secret whose custom fields nest deeply overflows the stack and aborts the process");
+                }
+            }
+            Err(e) => rep.notes.push(format!("nest probe could not run: {e}")),
+        }
+    }
     flush(&mut ctx, &mut rep);
     rep.notes.push("modelled_types: DateTime CommitHash CommitProof CommitState Comparison AeadPack VaultEntry VaultCommit EventKind WriteEvent AccountEvent DeviceEvent(Revoke) FileEvent EventRecord String VaultMeta Auth Summary SharedAccess(no recipients) Header Contents Vault".into());
     rep.notes.push("tested_only_types (real round-trip and malformed-input streams, no Lean model): DeviceEvent::Trust (serde_json payload), SecretMeta, Secret (all 15 kinds), SecretRow".into());
